@@ -38,7 +38,7 @@ def gen_step(rng):
     return {'op': 'step', 'g': gen_growth(rng), 'J': rng.choice([0.0, 0.0, 10 ** rng.uniform(0, 25)]), 'Rn': rn, 'rnpos': rng.random(),
             'dtf': rng.choice([1.0, 1.0, 1.0, 0.5, 0.1, 2.0, 10.0, 1000.0]), 'rk4': rng.random() < 0.35,
             'maxDiss': rng.choice([1e-3, 1e-2, 0.1, 0.0]), 'minIndex': rng.choice([0, 0, 0, 1, 3]),
-            'adjust': rng.random() < 0.5}
+            'adjust': rng.random() < 0.5, 'trial': gen_dist(rng) if rng.random() < 0.3 else None}
 
 
 def gen_ops(rng, focus, nmax=25, extreme=False):
@@ -528,7 +528,11 @@ class Machine:
         p, F = self.pbm, self.F
         nb = p.bins
         bounds = np.array(p.PSDbounds, dtype=float, copy=True)
-        N = np.array(p.PSD, dtype=float, copy=True)
+        Nst = np.array(p.PSD, dtype=float, copy=True)
+        # the rate functions take the distribution as an argument: in 30% of the steps it is a trial distribution that is NOT the stored one
+        N = make_dist(op['trial'], bounds) if op.get('trial') else Nst.copy()
+        if op.get('trial'):
+            self.sig.add('trial_distribution')
         g = make_growth(op['g'], bounds)
         J = float(op['J'])
         kind = op['Rn']
@@ -559,7 +563,7 @@ class Machine:
         # reference limit: 0.4 * class width / fastest |growth| over lower faces of populated classes >= dissIdx
         gm = 0.0
         for i in range(dissIdx, nb):
-            if N[i] > 0:
+            if Nst[i] > 0:          # (the step limit is a function of the stored distribution)
                 gm = max(gm, abs(g[i]))
         dt_ref = 0.4 * (bounds[1] - bounds[0]) / gm if gm > 0 else dtmax
         if not close(dt_lim, dt_ref, 1e-12):
